@@ -23,6 +23,7 @@ func (s *c06sink) Chan() <-chan scan.Result { return nil }
 
 type c06proc struct {
 	sink *c06sink
+	kept []scan.Result // every record object emitted so far, kept to see whether a later frame changes it
 	sm   *ScanMethod
 }
 
@@ -33,12 +34,24 @@ func (p *c06proc) Feed(frame []byte) (recs []zzref.C06Rec, panicked any) {
 		_ = p.sm.ProcessPacketData(frame, &gopacket.CaptureInfo{CaptureLength: len(frame), Length: len(frame)})
 	}()
 	for _, r := range p.sink.got {
-		x, ok := r.(*ScanResult)
-		if !ok {
-			recs = append(recs, zzref.C06Rec{{"type", fmt.Sprintf("%T", r)}})
-			continue
-		}
-		recs = append(recs, zzref.C06Rec{{"ip", x.IP}, {"mac", x.MAC}, {"vendor", x.Vendor}})
+		p.kept = append(p.kept, r)
+		recs = append(recs, c06render(r))
+	}
+	return
+}
+
+func c06render(r scan.Result) zzref.C06Rec {
+	x, ok := r.(*ScanResult)
+	if !ok {
+		return zzref.C06Rec{{"type", fmt.Sprintf("%T", r)}}
+	}
+	return zzref.C06Rec{{"ip", x.IP}, {"mac", x.MAC}, {"vendor", x.Vendor}}
+}
+
+// Retained renders, as they are NOW, all record objects emitted since the processor was created.
+func (p *c06proc) Retained() (recs []zzref.C06Rec) {
+	for _, r := range p.kept {
+		recs = append(recs, c06render(r))
 	}
 	return
 }
